@@ -79,7 +79,8 @@ def check_generic(c):
     svc, cls, inst, attr = c["service"], c["cls"], c["inst"], c["attr"]
     key = (val_of(svc), val_of(cls), val_of(inst), (val_of(attr) or None) if attr not in (None, b"") else None)
     reply = (c["status"], list(c["ext"]), bytes(c["reply"]))
-    tgt = RefTarget({"generic": {key: reply}, "expected_route": ref_route(path_hops), "ucsend_any_route": True,
+    # request data of any length: whether it fits the connection is the caller's business here (C04 covers the library's own requests)
+    tgt = RefTarget({"enforce_size": False, "generic": {key: reply}, "expected_route": ref_route(path_hops), "ucsend_any_route": True,
                      "session_handle": c["session"], "conn_ids": [c["cid"]], "fo_policy": c["fo_policy"]})
     harness.install(tgt)
     try:
